@@ -14,6 +14,8 @@ open Elvis.ModCmp Elvis.Tcp.Tcb
 structure HsTcb (t : Tcb) : Prop where
   q : (t.state = .SynSent ∨ t.state = .SynReceived) →
     ∃ g ∈ t.outgoing.retransmit.map (·.segment), g.hdr.ctl.syn = true
+  qa : t.state = .SynReceived →
+    ∃ g ∈ t.outgoing.retransmit.map (·.segment), g.hdr.ctl.syn = true ∧ g.hdr.ctl.ack = true
   r : t.state = .SynReceived → t.rcv.nxt = t.rcv.irs + 1 ∧ t.incoming.text = []
   ha : ∀ σ ∈ t.incoming.segments, σ.text ≠ [] → σ.hdr.ctl.ack = true
 
@@ -107,7 +109,8 @@ theorem segments_rtxseg (t t' : Tcb) (out : List Segment) (e : t.segments = .ok 
 /-- SYN-SENT → SYN-RECEIVED (simultaneous open): `RCV.NXT = IRS + 1`, nothing else on the receive side changes -/
 theorem proc_ss_sr (t : Tcb) (g : Segment) (t' : Tcb) (r : ProcessSegmentResult)
     (e : t.processSegment g = .ok (t', r)) (hst : t.state = .SynSent) (hfin : g.hdr.ctl.fin = false)
-    (hst' : t'.state = .SynReceived) : t'.rcv.nxt = t'.rcv.irs + 1 ∧ t'.incoming = t.incoming := by
+    (hst' : t'.state = .SynReceived) : t'.rcv.nxt = t'.rcv.irs + 1 ∧ t'.incoming = t.incoming ∧
+      ∃ g ∈ t'.outgoing.retransmit.map (·.segment), g.hdr.ctl.syn = true ∧ g.hdr.ctl.ack = true := by
   have h1 : seqCheck t g.hdr (BitVec.ofNat 32 g.text.length) = .ok (t, none) := by
     unfold seqCheck; rw [hst]
   unfold processSegment at e
@@ -146,7 +149,8 @@ theorem proc_ss_sr (t : Tcb) (g : Segment) (t' : Tcb) (r : ProcessSegmentResult)
             obtain ⟨t4, r4⟩ := p4
             rw [h4] at e
             -- block 4 in SYN-SENT
-            have key : (t4.state = .SynReceived ∧ t4.rcv.nxt = t4.rcv.irs + 1 ∧ t4.incoming = t3.incoming ∧ r4 ≠ none) ∨
+            have key : (t4.state = .SynReceived ∧ t4.rcv.nxt = t4.rcv.irs + 1 ∧ t4.incoming = t3.incoming ∧ r4 ≠ none ∧
+                  ∃ g ∈ t4.outgoing.retransmit.map (·.segment), g.hdr.ctl.syn = true ∧ g.hdr.ctl.ack = true) ∨
                 (t4.state ≠ .SynReceived ∧ t4.state ≠ .SynSent) ∨ (t4.state = .SynSent ∧ r4 ≠ none) := by
               unfold synBlock at h4
               split at h4
@@ -165,14 +169,18 @@ theorem proc_ss_sr (t : Tcb) (g : Segment) (t' : Tcb) (r : ProcessSegmentResult)
                   cases h4
                   left
                   refine ⟨by rw [(enqueueBuilt_frame _ _).2.2.2.2.1], by rw [(enqueueBuilt_frame _ _).2.1],
-                    by rw [(enqueueBuilt_frame _ _).2.2.2.1], by simp⟩
-            rcases key with ⟨_, k2, k3, k4⟩ | ⟨n1, n2⟩ | ⟨k1, k4⟩
+                    by rw [(enqueueBuilt_frame _ _).2.2.2.1], by simp, ?_⟩
+                  unfold enqueueBuilt
+                  rw [if_pos (by simp [Hdr.built, Hdr.withSyn, Hdr.withAck, Hdr.withWnd, headerBuilder])]
+                  refine ⟨_, List.mem_map.2 ⟨_, List.mem_append_right _ (List.mem_singleton.2 rfl), rfl⟩, ?_, ?_⟩ <;>
+                    simp [Transmit.new, Hdr.built, Hdr.withSyn, Hdr.withAck, Hdr.withWnd, headerBuilder, Hdr.builder]
+            rcases key with ⟨_, k2, k3, k4, k5⟩ | ⟨n1, n2⟩ | ⟨k1, k4⟩
             · cases r4 with
               | none => exact absurd rfl k4
               | some r4 =>
                 simp only [andThen_some, Except.ok.injEq, Prod.mk.injEq] at e
                 rw [← e.1]
-                exact ⟨k2, k3.trans f2.inc⟩
+                exact ⟨k2, k3.trans f2.inc, k5⟩
             · exfalso
               cases r4 with
               | some r4 =>
@@ -210,7 +218,8 @@ theorem proc_ss_sr (t : Tcb) (g : Segment) (t' : Tcb) (r : ProcessSegmentResult)
 /-- the same for `segment_arrives` on an idle heap -/
 theorem segmentArrives_ss_sr (t : Tcb) (g : Segment) (t' : Tcb) (e : t.segmentArrives g = .ok (t', .Ok))
     (hst : t.state = .SynSent) (hheap : t.incoming.segments = []) (hfin : g.hdr.ctl.fin = false)
-    (hst' : t'.state = .SynReceived) : t'.rcv.nxt = t'.rcv.irs + 1 ∧ t'.incoming.text = t.incoming.text := by
+    (hst' : t'.state = .SynReceived) : t'.rcv.nxt = t'.rcv.irs + 1 ∧ t'.incoming.text = t.incoming.text ∧
+      ∃ g ∈ t'.outgoing.retransmit.map (·.segment), g.hdr.ctl.syn = true ∧ g.hdr.ctl.ack = true := by
   rcases arrive_unfold t g t' e with ⟨hns, _, _⟩ | ⟨_, e1⟩
   · exact absurd hst hns
   · rw [hheap, C01.push_nil] at e1
@@ -236,8 +245,8 @@ theorem segmentArrives_ss_sr (t : Tcb) (g : Segment) (t' : Tcb) (e : t.segmentAr
         · exact h
         · rw [hs1] at hpeek2; simp [LHeap.peek] at hpeek2
       rw [ht'] at hst' ⊢
-      obtain ⟨k1, k2⟩ := proc_ss_sr { t with incoming.segments := [] } top s1 r1 hp hst hfin hst'
-      exact ⟨k1, by rw [k2]⟩
+      obtain ⟨k1, k2, k3⟩ := proc_ss_sr { t with incoming.segments := [] } top s1 r1 hp hst hfin hst'
+      exact ⟨k1, by rw [k2], k3⟩
 
 /-- LISTEN creates a TCB only for a SYN -/
 theorem listen_syn (σ : Segment) (issl : Seq) (mtu : U16) (tcb : Tcb)
@@ -275,8 +284,10 @@ theorem hs_local (s : Sys) (h : HsInv s) (x : SideId) (t t' : Tcb) (sd' : Side) 
       subst hyx
       rw [hsd] at hu; cases hu
       have f := h.tcb y t ht
-      refine ⟨fun hs => ?_, fun hs => ?_, by rw [hheap]; exact f.ha⟩
+      refine ⟨fun hs => ?_, fun hs => ?_, fun hs => ?_, by rw [hheap]; exact f.ha⟩
       · obtain ⟨g, hg, hsyn⟩ := f.q (by rw [← hst]; exact hs)
+        exact ⟨g, hq g hg, hsyn⟩
+      · obtain ⟨g, hg, hsyn⟩ := f.qa (by rw [← hst]; exact hs)
         exact ⟨g, hq g hg, hsyn⟩
       · obtain ⟨r1, r2⟩ := f.r (by rw [← hst]; exact hs)
         refine ⟨by rw [hrcv]; exact r1, ?_⟩
@@ -426,7 +437,7 @@ theorem hsinv_step (s : Sys) (hg : Good iss s) (hf : FInv iss mt s) (h : HsInv s
               exact ⟨this.1, by omega⟩, f.ha g hgm⟩
           have hsub := segmentArrives_heap_sub tcb σ tcb' .Ok h1
           have ftcb' : HsTcb tcb' := by
-            refine ⟨fun hs => ?_, fun hs => ?_, fun τ hτ => ?_⟩
+            refine ⟨fun hs => ?_, fun hs => ?_, fun hs => ?_, fun τ hτ => ?_⟩
             · have hsup := segmentArrives_sup hN tcb σ tcb' h1 ti h31 hval he rfl soσ soh hs
               have hst0 : tcb.state = .SynSent ∨ tcb.state = .SynReceived := by
                 rcases ti.st.cases with h0 | h0 | h0
@@ -440,7 +451,17 @@ theorem hsinv_step (s : Sys) (hg : Good iss s) (hf : FInv iss mt s) (h : HsInv s
               exact ⟨tr.segment, List.mem_map.2 ⟨tr, hsup tr htr, rfl⟩, hsyn⟩
             · rcases ti.st.cases with h0 | h0 | h0
               · have hidle := ((hg.ext.wf.side x).1 tcb htcb).2.1
-                obtain ⟨k1, k2⟩ := segmentArrives_ss_sr tcb σ tcb' h1 h0 (hidle h0) hval.fin hs
+                exact (segmentArrives_ss_sr tcb σ tcb' h1 h0 (hidle h0) hval.fin hs).2.2
+              · have hsup := segmentArrives_sup hN tcb σ tcb' h1 ti h31 hval he rfl soσ soh (Or.inr hs)
+                obtain ⟨g, hgm, hsyn⟩ := f.qa h0
+                obtain ⟨tr, htr, rfl⟩ := List.mem_map.1 hgm
+                exact ⟨tr.segment, List.mem_map.2 ⟨tr, hsup tr htr, rfl⟩, hsyn⟩
+              · exfalso
+                rw [h0, hs] at hrk
+                revert hrk; decide
+            · rcases ti.st.cases with h0 | h0 | h0
+              · have hidle := ((hg.ext.wf.side x).1 tcb htcb).2.1
+                obtain ⟨k1, k2, _⟩ := segmentArrives_ss_sr tcb σ tcb' h1 h0 (hidle h0) hval.fin hs
                 exact ⟨k1, by rw [k2]; exact (ti.rcv0 h0).2⟩
               · obtain ⟨k1, k2⟩ := segmentArrives_srkeep hN tcb σ tcb' h1 ti h31 hval he rfl soσ soh h0 hs
                 obtain ⟨r1, r2⟩ := f.r h0
@@ -479,7 +500,8 @@ theorem hsinv_step (s : Sys) (hg : Good iss s) (hf : FInv iss mt s) (h : HsInv s
             split at hu
             · cases hu
               rw [hc]
-              refine ⟨fun _ => ⟨⟨lsnSynAck σ issl, []⟩, by simp [listenT, Transmit.new], rfl⟩, fun _ => ⟨rfl, rfl⟩,
+              refine ⟨fun _ => ⟨⟨lsnSynAck σ issl, []⟩, by simp [listenT, Transmit.new], rfl⟩,
+                fun _ => ⟨⟨lsnSynAck σ issl, []⟩, by simp [listenT, Transmit.new], rfl, rfl⟩, fun _ => ⟨rfl, rfl⟩,
                 fun τ hτ hne => ?_⟩
               have hτ' : τ = parkedSyn σ := by simpa [listenT] using hτ
               rw [hτ'] at hne
@@ -523,7 +545,7 @@ theorem hsinv_run {s s' : Sys} (hc : Conv iss s) (hx : Ext s) (hf : FInv iss mt 
     exact hsinv_step _ ⟨g1.1, g1.2, hb1⟩ (finv_run hc hx hf r1 hb1) (ih hb1) _ hp _ _ e ⟨g2.1, g2.2, hb⟩
 
 theorem hstcb_open (lp rp : U16) (i : Seq) (m : U16) : HsTcb (openT lp rp i m) :=
-  ⟨fun _ => ⟨⟨synHdr lp rp i, []⟩, by simp [openT, Transmit.new], rfl⟩, fun h => (by cases h),
+  ⟨fun _ => ⟨⟨synHdr lp rp i, []⟩, by simp [openT, Transmit.new], rfl⟩, fun h => (by cases h), fun h => (by cases h),
     fun τ hτ => (by simp [openT] at hτ)⟩
 
 theorem hsinv_init (ia ib : Seq) (ma mb : U16) (simultaneous : Bool) (sys : Sys) (rs : List Res)
